@@ -110,6 +110,16 @@ pub fn c07(cfg: &Cfg, idx: u64, st: &mut Stats) {
                 }
             }
         }
+        // "any number of times": one position gets 20 000 Interrupted in a row
+        if w > 0 {
+            let wi = rng.usize_below(w);
+            let mut c = base.clone();
+            c.plan.writes = vec![WStep::Full; wi];
+            c.plan.writes.extend(std::iter::repeat(WStep::Intr).take(20_000));
+            if st.report("C07", &Case::Build(c)) {
+                return;
+            }
+        }
         *st
             .exhaustive_scopes
             .entry("sweep workload: every fixed cap 1..16 and every position of a single short write (1 and len-1 bytes) and of a single Interrupted".into())
@@ -121,13 +131,21 @@ pub fn c07(cfg: &Cfg, idx: u64, st: &mut Stats) {
         } else {
             gen::legal_task(&mut rng, if big { 400 } else { 40 })
         };
-        let case = BuildCase {
+        let mut case = BuildCase {
             task,
             bufcap: gen::bufcap(&mut rng),
             prefill: gen::prefill(&mut rng),
             plan: Plan::clean(),
             random: Some((gen::benign_shape(&mut rng), rng.next_u64())),
         };
+        if rng.chance(1, 10) {
+            // "bytes_written() ALWAYS equals the number of bytes the sink has
+            // accepted so far": also right after a call that failed half-way
+            // through a buffer. One hard fault somewhere; only the byte
+            // counter invariant is judged in such a run.
+            case.bufcap = None;
+            case.plan.fault_write = Some((rng.usize_below(300), WStep::Err(gen::err_kind(&mut rng))));
+        }
         st.report("C07", &Case::Build(case));
     }
 }
@@ -192,6 +210,7 @@ pub fn c01(cfg: &Cfg, idx: u64, st: &mut Stats) {
             bufcap: None,
             every: 1000,
             shape: Shape::Random { short_16: 3, intr_16: 1 },
+            bulk: false,
         };
         st.report("C01", &Case::MemBuild(case));
         return;
@@ -504,6 +523,26 @@ pub fn c11_sizes(cfg: &Cfg) -> u64 {
 
 pub fn c11(cfg: &Cfg, idx: u64, st: &mut Stats) {
     let mut rng = rng_for(cfg, idx);
+    if idx < 6 {
+        // multi-MiB builds: the first flush call fails whenever it comes, or
+        // a write fails deep into the build (cache full, evictions running)
+        let n = match cfg.tier {
+            Tier::Quick => 250_000,
+            Tier::Thorough => 3_000_000,
+        };
+        let case = MemBuildCase {
+            fam: KeyFamily { n, fanout: 26, keylen: 12, seed: rng.next_u64(), pairs: idx == 1, leaf_fan: 0, decreasing: false },
+            map: idx % 2 == 0,
+            registry: [None, Some((64, 2)), Some((3, 3))][(idx % 3) as usize],
+            bufcap: if idx == 2 { Some(8192) } else { None },
+            // 0 = fail the first flush; otherwise fail this write call
+            every: if idx < 3 { 0 } else { 50_000 + rng.below(n) * 2 },
+            shape: Shape::Random { short_16: 2, intr_16: 1 },
+            bulk: false,
+        };
+        st.report("C11", &Case::MemBuild(case));
+        return;
+    }
     let (task, _) = gen::sweep_task(&mut rng, 12, 8);
     // three layerings: alone / with short writes / behind a BufWriter
     let layering = idx % 3;
@@ -638,6 +677,80 @@ fn biased_pos(rng: &mut Rng, len: usize) -> usize {
 pub fn c20(cfg: &Cfg, idx: u64, st: &mut Stats) {
     let (sweeps, _) = c20_sizes(cfg);
     let mut rng = rng_for(cfg, idx);
+    if idx == sweeps {
+        // one artifact above 1 MiB: every footer field at its boundary
+        // values, with and without a recomputed checksum, truncations around
+        // the end, and the older format versions (size thresholds in open /
+        // verify must not turn garbage into a panic)
+        let fam = KeyFamily { n: 110_000, fanout: 26, keylen: 12, seed: rng.next_u64(), pairs: false, leaf_fan: 0, decreasing: false };
+        let mut b = fst::MapBuilder::memory();
+        let mut key = Vec::new();
+        for i in 0..fam.n {
+            fam.key_into(i, &mut key);
+            b.insert(&key, i).expect("harness: big artifact");
+        }
+        let bytes = b.into_inner().expect("harness: big artifact");
+        let l = bytes.len() as u64;
+        let mut n = 0u64;
+        let mut roots: Vec<u64> = (0..=24).map(|d| l - d).collect();
+        roots.extend_from_slice(&[0, 1, 15, 16, l + 1, 1 << 63, u64::MAX, u64::MAX - 20, l / 2]);
+        for (ri, root) in roots.iter().enumerate() {
+            for len_field in [fam.n, 0, u64::MAX] {
+                for variant in 0..4 {
+                    let mut m = bytes.clone();
+                    let e = m.len();
+                    let mut tail = Vec::new();
+                    tail.extend_from_slice(&len_field.to_le_bytes());
+                    tail.extend_from_slice(&root.to_le_bytes());
+                    match variant {
+                        0 | 1 => {
+                            m[e - 20..e - 4].copy_from_slice(&tail);
+                            if variant == 1 {
+                                crate::restart::apply(&mut m, &Mutation::FixChecksum);
+                            }
+                        }
+                        _ => {
+                            // as a version 1 / 2 file: footer is the last 16 bytes
+                            crate::restart::apply(&mut m, &Mutation::Downgrade { v: variant as u64 - 1 });
+                            let e = m.len();
+                            m[e - 16..].copy_from_slice(&tail);
+                        }
+                    }
+                    n += 1;
+                    if let Some(_v) = crate::restart::check_c20_bytes(&m) {
+                        // make it an explicit, replayable case
+                        let mut muts = vec![];
+                        if variant >= 2 {
+                            muts.push(Mutation::Downgrade { v: variant as u64 - 1 });
+                        }
+                        let mut t = tail.clone();
+                        if variant < 2 {
+                            t.extend_from_slice(&m[m.len() - 4..]);
+                        }
+                        muts.push(Mutation::Tail { bytes: t });
+                        let cc = CorruptCase { base: Base::Raw(bytes.clone()), muts };
+                        st.report("C20", &Case::Corrupt(cc));
+                        return;
+                    }
+                    let _ = ri;
+                }
+            }
+        }
+        for cut in [1usize, 3, 4, 5, 19, 20, 21, 36] {
+            let m = &bytes[..bytes.len() - cut];
+            n += 1;
+            if crate::restart::check_c20_bytes(m).is_some() {
+                let cc = CorruptCase { base: Base::Raw(bytes.clone()), muts: vec![Mutation::Truncate { len: bytes.len() - cut }] };
+                st.report("C20", &Case::Corrupt(cc));
+                return;
+            }
+        }
+        let mut d = crate::rng::Digest::new();
+        d.bytes(&bytes[..4096]);
+        st.bulk(d.finish(), n);
+        st.count("corrupt.boundary_footers_on_artifact_above_1MiB", n);
+        return;
+    }
     if idx < sweeps {
         let (task, _) = gen::sweep_task(&mut rng, 10, 8);
         let base = BuildCase {
@@ -698,9 +811,22 @@ pub fn c20(cfg: &Cfg, idx: u64, st: &mut Stats) {
         }
         // a complete artifact, mutated 1..3 times
         3 | 4 => {
-            let (task, _) = gen::legal_task(&mut rng, 20);
-            let n = rng.urange(1, 3);
-            let muts = (0..n).map(|_| random_mutation(&mut rng, 120)).collect();
+            let (task, _) = match rng.below(8) {
+                0 => gen::wide_task(&mut rng, false),
+                // larger artifacts (several KiB): code that only runs above
+                // a size threshold, and misaligned placement (see probe)
+                1 => gen::legal_task(&mut rng, 400),
+                _ => gen::legal_task(&mut rng, 20),
+            };
+            let n = rng.urange(0, 3);
+            let mut muts: Vec<Mutation> = Vec::new();
+            if rng.chance(1, 4) {
+                // the same data as an older format version, then damaged
+                muts.push(Mutation::Downgrade { v: *rng.pick(&[1u64, 2, 2]) });
+            }
+            for _ in 0..n {
+                muts.push(random_mutation(&mut rng, 120));
+            }
             CorruptCase { base: Base::Build(task), muts }
         }
         // boundary headers / footers of length 0..64
@@ -747,9 +873,91 @@ pub fn c08_sizes(cfg: &Cfg) -> (u64, u64, u64) {
     (scaled(cfg, 200, 10_000), scaled(cfg, 20_000, 1_000_000), scaled(cfg, 120_000, 6_000_000))
 }
 
+/// Solve for a 32-bit part of a one-key map's value such that the finished
+/// artifact's (masked) checksum is exactly `target`: CRC-32C is affine in
+/// those bytes, so this is a 32x32 linear system over GF(2) set up with the
+/// harness's own reference CRC. Boundary values of the *checksum itself*
+/// (0, 1, 0xFFFFFFFF, ...) are one in 2^32 for random inputs.
+fn task_with_checksum(key: &[u8], target: u32) -> Option<TaskSpec> {
+    let task = |x: u32| TaskSpec {
+        front: Front::Map,
+        registry: None,
+        ops: vec![Op::Ins(key.to_vec(), (1u64 << 63) | x as u64)],
+        fin: Fin::IntoInner,
+    };
+    let probe = 0x1122_3344u32;
+    let base = crate::build::reference_build(&task(probe)).1?;
+    let pat = [0x44u8, 0x33, 0x22, 0x11, 0, 0, 0, 0x80];
+    let n = base.len();
+    let p = (0..n.saturating_sub(12)).find(|&i| base[i..i + 8] == pat)?;
+    let body = |x: u32| -> Vec<u8> {
+        let mut b = base[..n - 4].to_vec();
+        b[p..p + 4].copy_from_slice(&x.to_le_bytes());
+        b
+    };
+    let c0 = crate::model::crc32c_fast(&body(0));
+    let cols: Vec<u32> = (0..32).map(|i| crate::model::crc32c_fast(&body(1 << i)) ^ c0).collect();
+    let want = target.wrapping_sub(0xA282_EAD8).rotate_left(15) ^ c0;
+    // Gaussian elimination: rows are output bits; bit i of a row = cols[i] bit r
+    let mut rows: Vec<(u32, bool)> = (0..32)
+        .map(|r| {
+            let mut m = 0u32;
+            for i in 0..32 {
+                if (cols[i] >> r) & 1 == 1 {
+                    m |= 1 << i;
+                }
+            }
+            (m, (want >> r) & 1 == 1)
+        })
+        .collect();
+    let mut piv_of_col = [usize::MAX; 32];
+    let mut row = 0;
+    for col in 0..32 {
+        if let Some(pr) = (row..32).find(|&r| (rows[r].0 >> col) & 1 == 1) {
+            rows.swap(row, pr);
+            for r in 0..32 {
+                if r != row && (rows[r].0 >> col) & 1 == 1 {
+                    let (m, b) = rows[row];
+                    rows[r].0 ^= m;
+                    rows[r].1 ^= b;
+                }
+            }
+            piv_of_col[col] = row;
+            row += 1;
+        }
+    }
+    if rows.iter().any(|(m, b)| *m == 0 && *b) {
+        return None; // inconsistent (cannot happen for a bijective map)
+    }
+    let mut x = 0u32;
+    for col in 0..32 {
+        if piv_of_col[col] != usize::MAX && rows[piv_of_col[col]].1 {
+            x |= 1 << col;
+        }
+    }
+    Some(task(x))
+}
+
+const C08_SPECIAL_SUMS: [u32; 8] =
+    [0, 1, 0xFFFF_FFFF, 0x8000_0000, 0xA282_EAD8, 0x0000_FFFF, 0xFFFF_0000, 0x0100_0000];
+
 pub fn c08(cfg: &Cfg, idx: u64, st: &mut Stats) {
     let (files, payloads, _) = c08_sizes(cfg);
     let mut rng = rng_for(cfg, idx);
+    if idx > files && idx <= files + 24 {
+        // artifacts whose checksum is a boundary value
+        let k = (idx - files - 1) as usize;
+        let target = C08_SPECIAL_SUMS[k % C08_SPECIAL_SUMS.len()];
+        let key: &[u8] = [&b"a"[..], &b""[..], &b"key-with-a-longer-name"[..]][k / C08_SPECIAL_SUMS.len() % 3];
+        if let Some(task) = task_with_checksum(key, target) {
+            let bytes = crate::build::reference_build(&task).1.unwrap_or_default();
+            let n = bytes.len();
+            let hit = n >= 4 && bytes[n - 4..] == target.to_le_bytes();
+            st.count(if hit { "probe.artifact_with_boundary_checksum_value" } else { "probe.checksum_solver_missed" }, 1);
+            st.report("C08", &Case::Corrupt(CorruptCase { base: Base::Build(task), muts: vec![] }));
+        }
+        return;
+    }
     if idx == files {
         // one artifact of several MiB: build path (byte-at-a-time sums) vs
         // verify path (16 bytes at a time over the whole file) at a scale
@@ -765,6 +973,7 @@ pub fn c08(cfg: &Cfg, idx: u64, st: &mut Stats) {
             bufcap: None,
             every: 1000,
             shape: Shape::Random { short_16: 3, intr_16: 1 },
+            bulk: false,
         };
         st.report("C08", &Case::MemBuild(case));
         return;
@@ -794,7 +1003,7 @@ pub fn c08(cfg: &Cfg, idx: u64, st: &mut Stats) {
                 }
                 m[pos] = val;
                 n += 1;
-                if crate::restart::check_c08b_bytes(&bytes, &m).is_some() {
+                if crate::restart::check_c08b_bytes(&bytes, &m, pos + 24 >= bytes.len() || pos < 16).is_some() {
                     let cc = CorruptCase {
                         base: Base::Build(task.clone()),
                         muts: vec![Mutation::Subst { pos, val }],
@@ -819,7 +1028,7 @@ pub fn c08(cfg: &Cfg, idx: u64, st: &mut Stats) {
                     let mut m2 = bytes.clone();
                     m2[pos..end].copy_from_slice(&b);
                     n += 1;
-                    if crate::restart::check_c08b_bytes(&bytes, &m2).is_some() {
+                    if crate::restart::check_c08b_bytes(&bytes, &m2, pos + 24 >= bytes.len()).is_some() {
                         let cc = CorruptCase {
                             base: Base::Build(task.clone()),
                             muts: vec![Mutation::Burst { pos, bytes: b }],
@@ -977,7 +1186,12 @@ pub fn c15(cfg: &Cfg, idx: u64, st: &mut Stats) {
             } else {
                 *rng.pick(&[Front::Set, Front::Raw, Front::Map])
             };
-            let ops = gen::group_ops(&mut rng, front, &items);
+            let mut ops = gen::group_ops(&mut rng, front, &items);
+            if rng.chance(1, 4) {
+                // calls that must be rejected do not belong to the accepted
+                // sequence and must not influence the bytes
+                ops = gen::with_rejected_noise(&mut rng, front, &ops);
+            }
             let bc = BuildCase {
                 task: TaskSpec { front, registry: geometry, ops, fin: gen::fin(&mut rng) },
                 bufcap: gen::bufcap(&mut rng),
@@ -1038,6 +1252,7 @@ pub fn c13_cases(cfg: &Cfg) -> Vec<MemBuildCase> {
                     registry: g,
                     bufcap: if map { None } else { Some(4096) },
                     every: 1000,
+                    bulk: false,
                 });
             }
         }
@@ -1051,6 +1266,7 @@ pub fn c13_cases(cfg: &Cfg) -> Vec<MemBuildCase> {
             bufcap: None,
             every: 1000,
             shape: shapes[i % shapes.len()],
+            bulk: false,
         });
     }
     // an unbounded number of DISTINCT wide nodes (leaf fans of 33..64 last
@@ -1064,6 +1280,7 @@ pub fn c13_cases(cfg: &Cfg) -> Vec<MemBuildCase> {
             bufcap: None,
             every: 1000,
             shape: shapes[i % shapes.len()],
+            bulk: false,
         });
     }
     for (i, g) in [Some((64usize, 2usize)), None, Some((1, 1))].iter().enumerate() {
@@ -1074,6 +1291,32 @@ pub fn c13_cases(cfg: &Cfg) -> Vec<MemBuildCase> {
             bufcap: None,
             every: 1000,
             shape: shapes[(i + 2) % shapes.len()],
+            bulk: false,
+        });
+    }
+    // the opposite extreme: complete F-ary trees (keylen == counter width),
+    // i.e. very long stretches of keys that create no new node at all
+    for (i, (f, l, g)) in [(2u32, 20u32, None), (4, 10, Some((64usize, 2usize))), (2, 18, Some((1, 1)))].iter().enumerate() {
+        out.push(MemBuildCase {
+            fam: KeyFamily { n: (*f as u64).pow(*l), fanout: *f, keylen: *l, seed: seed ^ 0xde5e ^ i as u64, pairs: false, leaf_fan: 0, decreasing: false },
+            map: i == 1,
+            registry: *g,
+            bufcap: None,
+            every: 1000,
+            shape: shapes[i % shapes.len()],
+            bulk: false,
+        });
+    }
+    // one bulk call over a large slice (exact size hint) instead of a loop
+    for (i, g) in [None, Some((64usize, 2usize))].iter().enumerate() {
+        out.push(MemBuildCase {
+            fam: KeyFamily { n: 400_000, fanout: 26, keylen: 12, seed: seed ^ 0xb01c ^ i as u64, pairs: false, leaf_fan: 0, decreasing: false },
+            map: i == 0,
+            registry: *g,
+            bufcap: None,
+            every: 1000,
+            shape: Shape::Full,
+            bulk: true,
         });
     }
     if cfg.tier == Tier::Thorough {
@@ -1085,6 +1328,7 @@ pub fn c13_cases(cfg: &Cfg) -> Vec<MemBuildCase> {
                 bufcap: None,
                 every: 10_000,
                 shape: Shape::Full,
+                bulk: false,
             });
         }
         for (f, l) in [(2u32, 40u32), (10, 16), (64, 24), (256, 64), (256, 8)] {
@@ -1096,6 +1340,7 @@ pub fn c13_cases(cfg: &Cfg) -> Vec<MemBuildCase> {
                     bufcap: None,
                     every: 1000,
                     shape: if l % 16 == 0 { Shape::Cap(4096) } else { Shape::Random { short_16: 2, intr_16: 1 } },
+                    bulk: false,
                 });
             }
         }
@@ -1107,6 +1352,7 @@ pub fn c13_cases(cfg: &Cfg) -> Vec<MemBuildCase> {
                 bufcap: None,
                 every: 1000,
                 shape: if map { Shape::Cap(4096) } else { Shape::Random { short_16: 2, intr_16: 1 } },
+                bulk: false,
             });
         }
     }
@@ -1129,6 +1375,9 @@ pub fn c14_cases(cfg: &Cfg) -> Vec<MemReadCase> {
         MemReadCase { n_small: 1_000, n_large: 1_000_000, fanout: 26, keylen: 12, seed: seed ^ 1, k: 4 },
         MemReadCase { n_small: 2_000, n_large: 200_000, fanout: 256, keylen: 24, seed: seed ^ 2, k: 4 },
         MemReadCase { n_small: 1_000, n_large: 50_000, fanout: 4, keylen: 64, seed: seed ^ 3, k: 8 },
+        // keys longer than the 64-byte initial capacity of set-operation slots
+        MemReadCase { n_small: 1_000, n_large: 40_000, fanout: 26, keylen: 96, seed: seed ^ 8, k: 4 },
+        MemReadCase { n_small: 500, n_large: 20_000, fanout: 256, keylen: 300, seed: seed ^ 9, k: 2 },
     ];
     if cfg.tier == Tier::Thorough {
         out.push(MemReadCase { n_small: 1_000, n_large: 5_000_000, fanout: 26, keylen: 14, seed: seed ^ 4, k: 2 });
